@@ -67,6 +67,8 @@ var floatBits = []uint64{
 func isNaNBits(b uint64) bool { return b&0x7ff0000000000000 == 0x7ff0000000000000 && b&0x000fffffffffffff != 0 }
 
 type gen struct {
+	lastCnts []*int // callback counters of the instruction list generated last
+	inFapply bool
 	forceInv bool // all leaves of the clause being generated are inverse filters
 	r    *tx.Rng
 	w    *tx.W
@@ -571,6 +573,9 @@ func (g *gen) reobserve(except int) {
 func (g *gen) pickFrame(wantOK bool) *hframe {
 	for try := 0; try < 20; try++ {
 		f := g.fam[g.r.Intn(len(g.fam))]
+		if g.r.Bool() && len(g.fam) > 3 {
+			f = g.fam[len(g.fam)-1-g.r.Intn(3)]
+		}
 		if f.digest == "panic" {
 			continue
 		}
@@ -843,6 +848,24 @@ func (g *gen) genLeaf(f *hframe, bad bool) clause {
 
 func (g *gen) genClause(f *hframe, depth int, bad bool) clause {
 	r := g.r
+	if bad && depth >= 2 && r.P(1, 3) {
+		// Or(<every row>, <nested clause that fails at filter time>): the error must not be lost
+		l := g.genLeaf(f, true)
+		wrap := r.Pick([]string{"AND", "OR", "NOT"})
+		var inner clause
+		switch wrap {
+		case "AND":
+			inner = clause{qframe.And(l.c), append([]string{"AND", "1"}, l.toks...)}
+		case "OR":
+			inner = clause{qframe.Or(qframe.Null(), l.c), append([]string{"OR", "2", "NULL"}, l.toks...)}
+		default:
+			inner = clause{qframe.Not(qframe.And(l.c)), append([]string{"NOT", "AND", "1"}, l.toks...)}
+		}
+		if r.Bool() {
+			return clause{qframe.Or(qframe.Null(), inner.c), append([]string{"OR", "2", "NULL"}, inner.toks...)}
+		}
+		return clause{qframe.Or(inner.c, qframe.Null()), append(append([]string{"OR", "2"}, inner.toks...), "NULL")}
+	}
 	k := r.Intn(10)
 	if depth <= 0 || k < 4 {
 		return g.genLeaf(f, bad && r.P(1, 2))
@@ -955,6 +978,54 @@ var fn2Catalogue = []fnEntry{
 type instr struct {
 	in   qframe.Instruction
 	toks []string
+	cnt  *int // number of invocations of the user callback of this instruction (nil: no callback)
+}
+
+// counted wraps a catalogue function so that its invocations are counted.
+func counted(fn interface{}, cnt *int) interface{} {
+	switch f := fn.(type) {
+	case func(int) int:
+		return func(x int) int { *cnt++; return f(x) }
+	case func(int) bool:
+		return func(x int) bool { *cnt++; return f(x) }
+	case func(int) *string:
+		return func(x int) *string { *cnt++; return f(x) }
+	case func(int) float64:
+		return func(x int) float64 { *cnt++; return f(x) }
+	case func(float64) float64:
+		return func(x float64) float64 { *cnt++; return f(x) }
+	case func(float64) bool:
+		return func(x float64) bool { *cnt++; return f(x) }
+	case func(float64) int:
+		return func(x float64) int { *cnt++; return f(x) }
+	case func(bool) bool:
+		return func(x bool) bool { *cnt++; return f(x) }
+	case func(bool) int:
+		return func(x bool) int { *cnt++; return f(x) }
+	case func(*string) *string:
+		return func(x *string) *string { *cnt++; return f(x) }
+	case func(*string) int:
+		return func(x *string) int { *cnt++; return f(x) }
+	case func(*string) bool:
+		return func(x *string) bool { *cnt++; return f(x) }
+	case func(int, int) int:
+		return func(x, y int) int { *cnt++; return f(x, y) }
+	case func(float64, float64) float64:
+		return func(x, y float64) float64 { *cnt++; return f(x, y) }
+	case func(bool, bool) bool:
+		return func(x, y bool) bool { *cnt++; return f(x, y) }
+	case func(*string, *string) *string:
+		return func(x, y *string) *string { *cnt++; return f(x, y) }
+	case func() int:
+		return func() int { *cnt++; return f() }
+	case func() float64:
+		return func() float64 { *cnt++; return f() }
+	case func() bool:
+		return func() bool { *cnt++; return f() }
+	case func() *string:
+		return func() *string { *cnt++; return f() }
+	}
+	return fn
 }
 
 // genInstr generates one Apply instruction. bad requests an invalid one.
@@ -1101,7 +1172,8 @@ func (g *gen) genInstr(f *hframe, cols []colInfo, bad bool, written map[string]b
 			toks = append(toks, "-", "-", "c", tx.CInt(v))
 			break
 		}
-		if c.typ != "s" || !g.allValidUTF8(f, c) || !sameCol(f, c) || written[c.name] {
+		enumOK := c.typ == "e" && !g.inFapply && upperInjective(c.vals)
+		if !(c.typ == "s" || enumOK) || !g.allValidUTF8(f, c) || !sameCol(f, c) || written[c.name] {
 			v := g.genInt()
 			in.Fn = v
 			toks = append(toks, "-", "-", "c", tx.CInt(v))
@@ -1128,7 +1200,17 @@ func (g *gen) genInstr(f *hframe, cols []colInfo, bad bool, written map[string]b
 		in.Fn = e.fn
 		toks = append(toks, tx.HexS(c.name), tx.HexS(c2.name), "f2", e.id)
 	}
-	return instr{in, toks}
+	cnt := new(int)
+	wrapped := counted(in.Fn, cnt)
+	if fmt.Sprintf("%T", wrapped) == fmt.Sprintf("%T", in.Fn) && isFunc(in.Fn) {
+		in.Fn = wrapped
+		return instr{in, toks, cnt}
+	}
+	return instr{in, toks, nil}
+}
+
+func isFunc(x interface{}) bool {
+	return x != nil && len(fmt.Sprintf("%T", x)) > 4 && fmt.Sprintf("%T", x)[:4] == "func"
 }
 
 func (g *gen) pickColFrom(cols []colInfo) (colInfo, bool) {
@@ -1146,6 +1228,7 @@ func applySchema(cols []colInfo, in instr) []colInfo {
 }
 
 func (g *gen) genInstrs(f *hframe, bad bool) ([]qframe.Instruction, []string) {
+	g.lastCnts = g.lastCnts[:0]
 	k := 1 + g.r.Intn(3)
 	if g.r.P(1, 10) {
 		k = 0
@@ -1161,6 +1244,7 @@ func (g *gen) genInstrs(f *hframe, bad bool) ([]qframe.Instruction, []string) {
 	for i := 0; i < k; i++ {
 		in := g.genInstr(f, cols, i == badAt, written)
 		written[in.in.DstCol] = true
+		g.lastCnts = append(g.lastCnts, in.cnt)
 		ins = append(ins, in.in)
 		toks = append(toks, in.toks...)
 		cols = applySchema(cols, in)
@@ -1520,11 +1604,15 @@ func (g *gen) genOp() {
 		ins, toks := g.genInstrs(src, bad)
 		g.w.Line(append(append(head, "apply"), toks...)...)
 		g.finish(fid, func() qframe.QFrame { return src.qf.Apply(ins...) })
+		g.emitCounts(fid)
 	case "fapply":
 		c := g.genClause(src, 2, bad && r.P(1, 2))
+		g.inFapply = true
 		ins, toks := g.genInstrs(src, bad && r.P(1, 2))
+		g.inFapply = false
 		g.w.Line(append(append(append(head, "fapply"), c.toks...), toks...)...)
 		g.finish(fid, func() qframe.QFrame { return src.qf.FilteredApply(c.c, ins...) })
+		g.emitCounts(fid)
 	case "rownums":
 		name := g.newName(src)
 		if bad {
@@ -1563,7 +1651,11 @@ func (g *gen) genOp() {
 		keys := g.genKeyCols(src, bad)
 		null := r.Bool()
 		g.w.Line(append(append(head, "distinct", tx.Bool01(null)), nameToks(keys)...)...)
+		nullFirst := r.Bool()
 		g.finish(fid, func() qframe.QFrame {
+			if nullFirst {
+				return src.qf.Distinct(groupby.Null(null), groupby.Columns(keys...))
+			}
 			return src.qf.Distinct(groupby.Columns(keys...), groupby.Null(null))
 		})
 	case "groupagg":
@@ -1586,7 +1678,11 @@ func (g *gen) genOp() {
 			toks = append(toks, a.toks...)
 		}
 		g.w.Line(toks...)
+		nullFirst := r.Bool()
 		g.finish(fid, func() qframe.QFrame {
+			if nullFirst {
+				return src.qf.GroupBy(groupby.Null(null), groupby.Columns(keys...)).Aggregate(aggs...)
+			}
 			return src.qf.GroupBy(groupby.Columns(keys...), groupby.Null(null)).Aggregate(aggs...)
 		})
 	case "groupframes":
@@ -1597,6 +1693,8 @@ func (g *gen) genOp() {
 	case "equals":
 		other := g.pickFrame(false)
 		g.equals(src, other)
+	case "rebuild":
+		g.rebuild(src)
 	}
 }
 
@@ -1606,7 +1704,11 @@ func (g *gen) groupFrames(src *hframe, keys []string, null bool) {
 			g.w.Line("GR", "P", tx.HexS(fmt.Sprint(p)))
 		}
 	}()
-	frames, err := src.qf.GroupBy(groupby.Columns(keys...), groupby.Null(null)).QFrames()
+	cfg := []groupby.ConfigFunc{groupby.Columns(keys...), groupby.Null(null)}
+	if g.r.Bool() {
+		cfg = []groupby.ConfigFunc{groupby.Null(null), groupby.Columns(keys...)}
+	}
+	frames, err := src.qf.GroupBy(cfg...).QFrames()
 	if err != nil {
 		g.w.Line("GR", "E")
 		return
@@ -1767,8 +1869,26 @@ func (g *gen) emitLikeOracle(f *hframe, c colInfo, pat string, ci bool) {
 	g.w.Line(toks...)
 }
 
+func upperInjective(vals []string) bool {
+	seen := map[string]bool{}
+	for _, v := range vals {
+		if !utf8.ValidString(v) {
+			return false
+		}
+		u := strings.ToUpper(v)
+		if seen[u] {
+			return false
+		}
+		seen[u] = true
+	}
+	return true
+}
+
 func (g *gen) emitUpperOracle(f *hframe, c colInfo) {
 	cells := colStrings(f, c)
+	for _, v := range c.vals {
+		cells = append(cells, v)
+	}
 	toks := []string{"XU", tx.Int(len(cells))}
 	for _, s := range cells {
 		toks = append(toks, tx.HexS(s), tx.HexS(strings.ToUpper(s)))
@@ -1786,4 +1906,166 @@ func dedupNames(names []string) []string {
 		}
 	}
 	return out
+}
+
+// emitCounts reports how often the callback of every instruction of the last Apply/FilteredApply ran (-1: no callback).
+func (g *gen) emitCounts(fid int) {
+	toks := []string{"CB", tx.Int(fid), tx.Int(len(g.lastCnts))}
+	for _, c := range g.lastCnts {
+		if c == nil {
+			toks = append(toks, "-1")
+		} else {
+			toks = append(toks, tx.Int(*c))
+		}
+	}
+	g.w.Line(toks...)
+}
+
+// rebuild constructs a new frame with New from the observed values of src, possibly perturbed in one place, and
+// compares the two with Equals in both directions.
+func (g *gen) rebuild(src *hframe) {
+	r := g.r
+	if src.err || len(src.cols) == 0 {
+		g.equals(src, src)
+		return
+	}
+	fid := g.freshFid()
+	data := map[string]types.DataSlice{}
+	enums := map[string][]string{}
+	order := []string{}
+	n := src.n
+	pert := r.Intn(9) // 0,1: exact copy
+	pcol := r.Intn(len(src.cols))
+	prow := 0
+	if n > 0 {
+		prow = r.Intn(n)
+	}
+	toks := []string{"N", tx.Int(fid), tx.Int(len(src.cols))}
+	for ci, c := range src.cols {
+		name := c.name
+		if pert == 2 && ci == pcol {
+			name = name + "_"
+		}
+		order = append(order, name)
+		ct := []string{tx.HexS(name)}
+		switch c.typ {
+		case "i":
+			v, _ := src.qf.IntView(c.name)
+			d := v.Slice()
+			if pert == 3 && ci == pcol && n > 0 {
+				d[prow]++
+			}
+			ct = append(ct, "I", tx.Int(len(d)))
+			for _, x := range d {
+				ct = append(ct, tx.CInt(x))
+			}
+			data[name] = d
+		case "f":
+			v, _ := src.qf.FloatView(c.name)
+			d := v.Slice()
+			if ci == pcol && n > 0 {
+				b := math.Float64bits(d[prow])
+				switch pert {
+				case 3:
+					if !isNaNBits(b) {
+						d[prow] = math.Float64frombits(b ^ 1) // next float: different value
+					} else {
+						d[prow] = 1
+					}
+				case 4:
+					if isNaNBits(b) {
+						d[prow] = math.Float64frombits(b ^ 2) // another NaN: still equal
+					} else if d[prow] == 0 {
+						d[prow] = math.Float64frombits(b ^ 1<<63) // the other zero: still equal
+					}
+				}
+			}
+			ct = append(ct, "F", tx.Int(len(d)))
+			for _, x := range d {
+				ct = append(ct, tx.CFloat(x))
+			}
+			data[name] = d
+		case "b":
+			v, _ := src.qf.BoolView(c.name)
+			d := v.Slice()
+			if pert == 3 && ci == pcol && n > 0 {
+				d[prow] = !d[prow]
+			}
+			ct = append(ct, "B", tx.Int(len(d)))
+			for _, x := range d {
+				ct = append(ct, tx.CBool(x))
+			}
+			data[name] = d
+		case "s", "e":
+			var d []*string
+			if c.typ == "s" {
+				v, _ := src.qf.StringView(c.name)
+				d = v.Slice()
+			} else {
+				v, _ := src.qf.EnumView(c.name)
+				d = v.Slice()
+			}
+			d = append([]*string(nil), d...)
+			if ci == pcol && n > 0 {
+				switch pert {
+				case 3:
+					x := "zz9"
+					d[prow] = &x
+				case 4, 5:
+					// null <-> empty string: different cells
+					if d[prow] == nil {
+						e := ""
+						d[prow] = &e
+					} else if *d[prow] == "" {
+						d[prow] = nil
+					} else if c.typ == "s" {
+						d[prow] = nil
+					}
+				}
+			}
+			ct = append(ct, "S", tx.Int(len(d)))
+			for _, x := range d {
+				ct = append(ct, tx.CStr(x))
+			}
+			data[name] = d
+			if c.typ == "e" && !(pert == 6 && ci == pcol) {
+				// declare the value table so that ranks agree; values introduced by a perturbation are derived
+				vals := append([]string(nil), c.vals...)
+				if ci == pcol && (pert == 3 || pert == 4 || pert == 5) {
+					vals = nil
+				}
+				enums[name] = vals
+			}
+		default:
+			g.equals(src, src)
+			return
+		}
+		toks = append(toks, ct...)
+	}
+	if pert == 7 && len(order) > 1 {
+		order[0], order[1] = order[1], order[0]
+	}
+	toks = append(toks, "O", tx.Int(len(order)))
+	for _, o := range order {
+		toks = append(toks, tx.HexS(o))
+	}
+	ek := make([]string, 0, len(enums))
+	for k := range enums {
+		ek = append(ek, k)
+	}
+	sort.Strings(ek)
+	toks = append(toks, "E", tx.Int(len(ek)))
+	for _, k := range ek {
+		toks = append(toks, tx.HexS(k), tx.Int(len(enums[k])))
+		for _, v := range enums[k] {
+			toks = append(toks, tx.HexS(v))
+		}
+	}
+	g.w.Line(toks...)
+	fns := []newqf.ConfigFunc{newqf.ColumnOrder(order...)}
+	if len(enums) > 0 {
+		fns = append(fns, newqf.Enums(enums))
+	}
+	nf := g.finish(fid, func() qframe.QFrame { return qframe.New(data, fns...) })
+	g.equals(src, nf)
 }
